@@ -688,6 +688,28 @@ func (f *TermFactory) Forall(vars []*Term, body *Term, pats ...[]*Term) *Term {
 	return t
 }
 
+// mentions reports whether term t contains the (bound) variable v.
+func (f *TermFactory) mentions(t, v *Term) bool {
+	seen := map[int]bool{}
+	var walk func(t *Term) bool
+	walk = func(t *Term) bool {
+		if t == v {
+			return true
+		}
+		if !t.bound || seen[t.id] {
+			return false
+		}
+		seen[t.id] = true
+		for _, a := range t.args {
+			if walk(a) {
+				return true
+			}
+		}
+		return false
+	}
+	return walk(t)
+}
+
 func (f *TermFactory) Exists(vars []*Term, body *Term) *Term {
 	f.next++
 	t := &Term{id: f.next, op: "exists", args: []*Term{body}, sort: SBool, qvars: vars}
